@@ -10,10 +10,14 @@ T = "Lean 4 theorems about an executable model of textwire + facts regenerated f
 
 CLAIMED = {
  "C01": (T + 'spec evaluator on expression trees as oracle',
-  "Theorems parse_of_print (the model's Pratt parser returns exactly the printed tree for identifiers, prefix - and !, every binary operator, "
-  "the ternary and parentheses - minimal or redundant - from every parser state, recording no error: precedence order, left grouping of equal "
-  "levels, right nesting of the ternary's else part), redundant_parentheses_do_not_matter, parsed_tokens_evaluate_to_the_denotation (parser and "
-  "evaluator composed = the denotation of the printed tree), eval_is_denotation (induction over fuel and the expression): wherever the model's token-based evaluator returns a value it is the value of the token-free denotational semantics TwSpec.seval (wrapping Int64, IEEE doubles, byte strings, same-typed operands), and wherever it returns an error there is none; corollaries for wrap-around, division/modulo by zero, mixed types, unknown identifiers, out-of-range literals. Parser: one-step theorems about the model's Pratt loop (right operand parsed at the operator's own level, loop stops at a lower or equal level, ternary then/else levels, assignment value at LOWEST, parentheses make no node); the precedence table, the parser registrations and the binding power at every parseExpression call site are regenerated from parser.go and re-checked (F3-F5). Partial: a full round-trip theorem (parse of the minimal-parenthesis printing of a tree is the tree) is not proved for the model parser; the grouping itself is tied by rendering every pair and sampled triples of binary operators, unary/postfix/ternary/member combinations and random trees in three layouts x three parenthesisation styles on the real code, the model and the specification.", BASE_NOTE),
+  "Theorems parse_of_print_full (parse of print = id for the WHOLE expression language of the model: literals, identifiers, prefix - and !, every binary "
+  "operator, the ternary, postfix ++/--, l[i], l.name, l.name(args), array and object literals, parentheses minimal or redundant; the printer decides "
+  "parentheses from the precedence table alone - left-spine level and the level of the loop still open at the right end - and the model's "
+  "parseExpression(LOWEST) returns exactly the printed tree from every parser state, stops on the last token and records no error; so operators group "
+  "by the order ternary < equality < comparison < additive < multiplicative < member access < prefix < index < postfix, equal levels to the left, the "
+  "ternary's else part to the right), redundant_parentheses_do_not_matter_full, printing_is_injective_full, parsed_tokens_evaluate_to_the_denotation_full "
+  "(parser and evaluator composed = the denotation of the printed tree, with printed_trees_are_wellformed discharging Expr.wf), the same four for the first fragment, "
+  "eval_is_denotation (induction over fuel and the expression): wherever the model's token-based evaluator returns a value it is the value of the token-free denotational semantics TwSpec.seval (wrapping Int64, IEEE doubles, byte strings, same-typed operands), and wherever it returns an error there is none; corollaries for wrap-around, division/modulo by zero, mixed types, unknown identifiers, out-of-range literals. Parser: one-step theorems about the model's Pratt loop (right operand parsed at the operator's own level, loop stops at a lower or equal level, ternary then/else levels, assignment value at LOWEST, parentheses make no node); the precedence table, the parser registrations and the binding power at every parseExpression call site are regenerated from parser.go and re-checked (F3-F5). Partial: the text-to-token half of 'whitespace and newlines never matter' is the token abstraction itself and is tied by correspondence (three layouts x three parenthesisation styles of every pair and sampled triples of operators, unary/postfix/ternary/member combinations and random trees on the real code, the model and the specification); object literals in the round trip are written key: value (the {a} shorthand and trailing commas are covered by correspondence only).", BASE_NOTE),
  "C02": (T + 'reference interpreter of the statement as oracle',
   "Theorems if_true / if_false / elseifs_first_truthy / elseifs_none_truthy (the construct's value is the body of the first truthy branch; later conditions do not occur in it, so they are never evaluated), falsy_iff (the truthiness table), ternary / @breakIf / @continueIf use the same function, text before and after is concatenated unchanged; correspondence over all branch shapes up to three @elseif x all vectors {falsy, truthy, failing} x every condition value kind, nested and inside loops.", BASE_NOTE),
  "C03": (T + 'reference interpreter of the statement as oracle',
